@@ -235,6 +235,26 @@ async fn list_proj(
     Ok(HttpResponseOk(ResultsPage::new(items, &scan, proj_selector)?))
 }
 
+// ---- a listing whose page token cannot be issued (selector too long for the
+// 512-character token bound): every non-empty page is a 500.  Used as
+// background traffic: other clients' failures must not disturb a scan.
+
+#[derive(Deserialize, Serialize)]
+struct LongSel {
+    name: String,
+}
+
+#[endpoint { method = GET, path = "/long" }]
+async fn list_long(
+    rqctx: RequestContext<Ctx>,
+    query: Query<PaginationParams<EmptyScanParams, LongSel>>,
+) -> Result<HttpResponseOk<ResultsPage<Item>>, HttpError> {
+    let p = query.into_inner();
+    let _ = rqctx.page_limit(&p)?;
+    let items = vec![Item { idx: 0, key: 0, name: "n".repeat(600), mtime: 0 }];
+    Ok(HttpResponseOk(ResultsPage::new(items, &EmptyScanParams {}, |i: &Item, _| LongSel { name: i.name.clone() })?))
+}
+
 // ---------------------------------------------------------------- client
 
 #[derive(Deserialize)]
@@ -404,6 +424,7 @@ fn main() {
         api.register(list_asc).unwrap();
         api.register(list_desc).unwrap();
         api.register(list_proj).unwrap();
+        api.register(list_long).unwrap();
         start_server(api, Ctx { colls }, ServerOpts::default())
     });
     let addr = server.local_addr();
@@ -441,6 +462,26 @@ fn main() {
         }
     }
     let ranks = Arc::new(ranks);
+    // background traffic while the scans run: listings that fail at token issue time (500)
+    let stop = Arc::new(std::sync::atomic::AtomicBool::new(false));
+    let noise = {
+        let stop = stop.clone();
+        std::thread::spawn(move || {
+            let (mut n500, mut other, mut sent) = (0u64, 0u64, 0u64);
+            while !stop.load(std::sync::atomic::Ordering::SeqCst) || sent < 40 {
+                sent += 1;
+                match roundtrip(addr, &build_request("GET", "/long", &[("connection", "close")], b""), false) {
+                    Some(r) if r.status == 500 => n500 += 1,
+                    _ => other += 1,
+                }
+                std::thread::sleep(std::time::Duration::from_millis(3));
+                if sent >= 4000 {
+                    break;
+                }
+            }
+            (sent, n500, other)
+        })
+    };
     let mut handles = Vec::new();
     for mi in 0..MODES.len() {
         let my: Vec<(usize, u64, Option<u64>)> = jobs.iter().filter(|j| j.0 == mi).cloned().collect();
@@ -469,6 +510,9 @@ fn main() {
             ));
         }
     }
+    stop.store(true, std::sync::atomic::Ordering::SeqCst);
+    let (sent, n500, other) = noise.join().unwrap();
+    out.line(&format!("noise z1 long {} => {} {}", if sent >= 40 { "many" } else { "few" }, (n500 == sent) as u8, other));
     out.flush();
     rt.block_on(async {
         let _ = server.close().await;
